@@ -605,10 +605,16 @@ def execute(item):
                 outcomes.append(oc)
                 bump("oc:" + oc)
                 continue
-            bad("opset-not-updated", form, "any", _cls_any(s, t),
-                {"declared": str(decl), "expected": t, "source": s,
-                 "what": "the result differs from the input but still declares the source opset for domain ''",
-                 "after": _short(after)}, sub)
+            if entry == "proto":
+                bad("opset-not-updated", form, "any", _cls_any(s, t),
+                    {"declared": str(decl), "expected": t, "source": s,
+                     "what": "the result differs from the input but still declares the source opset for domain ''",
+                     "after": _short(after)}, sub)
+            else:
+                bad("half-converted", form, op, _cls(op, s, t),
+                    {"declared": str(decl), "expected": t, "source": s, "exc": None,
+                     "what": "no exception, the model was altered (more than inlining) yet does not declare the "
+                             "target opset", "after": _short(after)}, sub)
         if any(x != str(t) for x in fdecl):
             consistent = False
             bad("function-opset", form, op, _cls(op, s, t), {"function_declared": fdecl, "expected": t}, sub)
